@@ -250,6 +250,10 @@ class Report:
                     seen.add(kind)
                     log("  kind=%s (%d cases)" % (kind, self.viol_kinds.get(kind, 1)))
             return 1
+        if self.evaluations >= 4 and len(self.inconclusive) * 2 > self.evaluations:
+            log("[%s] INCONCLUSIVE: %d of %d cases gave no verdict (harness error / watchdog); examples: %s" % (
+                self.prop, len(self.inconclusive), self.evaluations, self.inconclusive[:2]))
+            return 2
         if len(self.sigs) < min_nontrivial:
             log("[%s] INCONCLUSIVE: only %d distinct non-trivial cases observed (need %d); examples: %s" % (
                 self.prop, len(self.sigs), min_nontrivial, self.inconclusive[:2]))
